@@ -142,18 +142,23 @@ def generate(run_seed: int, tier: str, *, faults: bool) -> dict:
             kinds += [("num_to_text", 3)]
         if "F" in vars_used:
             kinds += [("level_alias", 2)]
+        k_forced_only = "k" in vars_used and all(a["cls"] == "C" for a in f["atoms"] if "k" in a["vars"])
+        if k_forced_only:
+            kinds += [("level_alias_k", 1.5)]
         if not kinds:
             return None
         k = core.weighted(rng, kinds)
         if k == "level_alias":
             return {"kind": k, "var": "F", "as": rng.choice(["int", "float"])}
+        if k == "level_alias_k":
+            return {"kind": "level_alias", "var": "k", "as": "bool"}
         if k == "cat_to_num":
             f_ = {"kind": k, "var": rng.choice(cat_vars)}
             if rng.random() < 0.15:
                 f_["allnull"] = True
             return f_
         if k == "num_to_text":
-            f_ = {"kind": k, "var": rng.choice(num_vars), "dtype": rng.choice(["object", "str", "category", "arrow_str"])}
+            f_ = {"kind": k, "var": rng.choice(num_vars), "dtype": rng.choice(["object", "str", "category", "arrow_str", "arrow_dict"])}
             if rng.random() < 0.15:
                 f_["allnull"] = True
             return f_
@@ -169,7 +174,7 @@ def generate(run_seed: int, tier: str, *, faults: bool) -> dict:
             h = rng.choice([x for x in handles if x["kind"] in ("root", "restart")])
             new = {"id": len(handles), "kind": "combo", "of": h["id"]}
             handles.append(new)
-            ops.append({"op": "combo", "h": h["id"], "new": new["id"]})
+            ops.append({"op": "combo", "h": h["id"], "new": new["id"], "staged": rng.random() < 0.4, "ids": sigma()[:4]})
             continue
         if kind in ("follow", "fault"):
             pool = handles if kind == "follow" else [h for h in handles if h["kind"] in ("root", "restart", "subset")]
@@ -868,7 +873,18 @@ def execute(scenario: dict, env: Any, *, prop: str) -> dict:
                 if spec1 is None or not isinstance(h["spec"], ModelSpec):
                     continue
                 try:
-                    combo = ModelSpecs(a=h["spec"], b=spec1)
+                    if op.get("staged"):
+                        # the container is first built and USED with two copies of one spec, then a member is replaced
+                        combo = ModelSpecs(a=h["spec"], b=h["spec"])
+                        warm = [r for r in op.get("ids", []) if not isinstance(h["ref"].block(r), Exception)]
+                        if warm:
+                            with warnings.catch_warnings():
+                                warnings.simplefilter("ignore")
+                                combo.get_model_matrix(frame(warm, "rid"), context=world.user_context())
+                        combo.b = spec1
+                        bump(stats, "probes", "container_member_replaced_after_use")
+                    else:
+                        combo = ModelSpecs(a=h["spec"], b=spec1)
                     clone = pickle.loads(pickle.dumps(combo))
                 except Exception as e:  # noqa: BLE001
                     raise Violation("c04:restart-failed", {"how": "ModelSpecs(a=spec, b=other spec) + pickle", "error": repr(e)[:300]})
